@@ -561,6 +561,10 @@ pub fn run_cells(session: &Session) {
                 if INFIX[o].contains('=') && !matches!(INFIX[o], "==" | "!=" | "<=" | ">=") {
                     cases.push(json!({"kind": "infix", "x": x, "y": y, "op": o}));
                 }
+                // concatenation of arrays that hold cells: the label of the result admits every cell in it
+                if INFIX[o] == "+" && op.ty.starts_with('[') && CATALOGUE[y].ty.starts_with('[') && CATALOGUE[y].ty.contains("mut") {
+                    cases.push(json!({"kind": "infix", "x": x, "y": y, "op": o}));
+                }
             }
             for t in 0..BINARY.len() {
                 if BINARY[t].contains(" = ") || BINARY[t].contains("+=") || BINARY[t].contains("X(Y") {
